@@ -1107,6 +1107,11 @@ def run_case(ctx):
             npar = tab[name]["nparams"]
         p1 = tuple(GC.rand_angle(rng, 0.0) for _ in range(npar))
         p2 = tuple(GC.rand_angle(rng, 0.0) for _ in range(npar))
+        if name != "custom" and ctx.index % 5 == 2:
+            # the gate that gets NEW parameters was built at values at which it happens to be self-adjoint / the
+            # identity (0, exact pi, 2 pi): whatever was concluded from those values must not outlive them
+            p1 = tuple(rng.choice([0, 0.0, sympy.Integer(0), sympy.pi, 2 * sympy.pi]) for _ in range(npar))
+            ctx.mon.note("replace:old-parameters-at-a-special-value")
         # one case in four: the old and / or the new parameters in exact spellings (Fraction, sympy numbers)
         exact_params = name not in ("custom", "RH") and ctx.index % 4 == 3
         if exact_params:
